@@ -13,7 +13,7 @@ use serde_json::json;
 use std::panic::{catch_unwind, AssertUnwindSafe};
 
 const FMT_ATOMS: [&str; 14] = ["%", "%%", "%1", "%2", "%0", "%10", "%...", ".", "..", "x(", ")", ", ", "%4294967296", "9"];
-const SPECIAL: [&str; 20] = [
+const SPECIAL: [&str; 24] = [
     "print(\"\\1\u{0663}\")\n",
     "local s = \"\\12\u{0969}\u{0663} \\x4\u{ff11} \\u{1\u{0663}}\"\n",
     "print('\\9\u{0e53}\u{0e53}', \"\\255\u{ff15}\")\n",
@@ -34,6 +34,10 @@ const SPECIAL: [&str; 20] = [
     "local x = if a then 1 else 2\nlocal s = `a{x}b`\nlocal y: number = 5 & 3\n",
     "for i = 1, #\"é\" do print(i) end for i = #t, 1 do end\n",
     "print(\t'\t'\t)\n\n\n",
+    "--# selene: allow(unused_variable)\n-- nothing but comments\n",
+    "-- selene: deny(shadowing)\n--[[ selene: allow(empty_if) ]]",
+    "local labels = {}\nfor key, value in pairs(localized(\"\u{3088}\u{3046}\u{3053}\u{305d}\u{3001}\u{3053}\u{308c}\u{306f}\u{7ffb}\u{8a33}\u{30c7}\u{30fc}\u{30bf}\u{3067}\u{3059}\u{3001}\u{3068}\u{3066}\u{3082}\u{9577}\u{3044}\u{6587}\u{5b57}\u{5217}\")) do\n  labels[key] = value\nend\nprint(labels)\n",
+    "local out = {}\nfor i, v in ipairs(t.\u{e9}\u{e9}\u{e9}\u{e9}\u{e9}\u{e9}\u{e9}\u{e9}\u{e9}\u{e9}\u{e9}\u{e9}\u{e9}\u{e9}\u{e9}\u{e9}\u{e9}\u{e9}\u{e9}\u{e9}\u{e9}\u{e9}\u{e9}\u{e9}\u{e9}\u{e9}\u{e9}\u{e9}\u{e9}\u{e9}\u{e9}) do\n  out[i] = v\nend\nprint(out)\n",
 ];
 
 const LINT_NAMES: [&str; 12] = [
